@@ -14,16 +14,26 @@ SMALL = {"sym": {"quick": 8, "thorough": 10}, "svd": {"quick": 6, "thorough": 8}
 # shapes beyond the exhaustive small range (m*1000+n): they cross the block size 32 of the reductions,
 # the mnthr = 1.6*min(m,n) paths of Dgesvd and the small-matrix / multishift crossover nmin = 75 of Dhseqr
 BIG = {
-    "sym": {"quick": [(20, 20), (33, 33), (76, 76)],
+    "sym": {"quick": [(16, 16), (17, 17), (20, 20), (33, 33), (65, 65), (76, 76)],
             "thorough": [(n, n) for n in (16, 17, 20, 33, 64, 65, 74, 75, 76, 80, 100, 128, 150)]},
-    "svd": {"quick": [(40, 20), (20, 40), (33, 33), (70, 30), (30, 70)],
+    "svd": {"quick": [(40, 20), (20, 40), (33, 33), (70, 30), (30, 70), (17, 16), (64, 65), (100, 40)],
             "thorough": [(40, 20), (20, 40), (33, 33), (70, 30), (30, 70), (17, 16), (16, 17), (64, 65), (65, 64),
                          (100, 40), (40, 100), (80, 80), (128, 75), (150, 90), (90, 150)]},
-    "gev": {"quick": [(20, 20), (76, 76)],
+    "gev": {"quick": [(17, 17), (20, 20), (33, 33), (76, 76)],
             "thorough": [(n, n) for n in (16, 17, 20, 33, 64, 65, 74, 75, 76, 80, 100, 128, 150)]},
 }
 LEMMA = {"quick": 5, "thorough": 7}
 FAMS = ("sym", "svd", "gev")
+# condensed-form families (CondensedSpectral.tla): (Small, Big) per tier; Big = extra sizes n
+COND = {
+    "tri": {"quick": (9, [20, 41]), "thorough": (12, [20, 41, 80])},
+    "bid": {"quick": (9, [20, 41]), "thorough": (12, [20, 41, 80])},
+    "lanv2": {"quick": (2, []), "thorough": (3, [])},
+    "trexc": {"quick": (6, []), "thorough": (8, [])},
+    "bal": {"quick": (7, []), "thorough": (9, [])},
+}
+COND_LEMMA = {"tri": {"quick": 7, "thorough": 9}, "bid": {"quick": 7, "thorough": 9}, "lanv2": {"quick": 2, "thorough": 3},
+              "trexc": {"quick": 5, "thorough": 6}, "bal": {"quick": 5, "thorough": 6}}
 # block size / crossover forced through the verifhook.Ilaenv override (ispec 1 and 3)
 FORCED = {"quick": [(2, 0), (3, 2)], "thorough": [(1, 0), (2, 0), (3, 0), (4, 0), (2, 2), (3, 2), (5, 0)]}
 
@@ -40,10 +50,14 @@ def run(ctx):
     bins = {n: ctx.build(t) for n, t in builds}
 
     # ---- R1: the identities behind the planted spectra ------------------------------------------
-    ctx.parallel([(lambda fam=fam: ctx.tlc("spectral/PlantedSpectralLemmas.tla", "spectral/PlantedSpectralLemmas.cfg",
+    r1 = ([(lambda fam=fam: ctx.tlc("spectral/PlantedSpectralLemmas.tla", "spectral/PlantedSpectralLemmas.cfg",
                                             name="R1 PlantedSpectralLemmas %s" % fam,
                                             subst=dict(FAM=fam, SMALL=LEMMA[ctx.tier], BIG="{}", SEED=ctx.seed), workers=2))
-                  for fam in FAMS], width=3)
+                  for fam in FAMS] +
+                 [(lambda fam=fam: ctx.tlc("spectral/CondensedSpectralLemmas.tla", "spectral/CondensedSpectralLemmas.cfg",
+                                            name="R1 CondensedSpectralLemmas %s" % fam,
+                                            subst=dict(FAM=fam, SMALL=COND_LEMMA[fam][ctx.tier], BIG="{}", SEED=ctx.seed), workers=2))
+                  for fam in COND])
 
     # ---- R2: planted instances replayed into gonum --------------------------------------------------
     def one(fam):
@@ -56,7 +70,16 @@ def run(ctx):
         for nb, nx in FORCED[ctx.tier]:
             ctx.replay(bins["default"], "spectral", cases, ["nb=%d" % nb, "nx=%d" % nx],
                        name="R2 replay %s nb=%d nx=%d [default]" % (fam, nb, nx))
-    ctx.parallel([(lambda fam=fam: one(fam)) for fam in FAMS], width=3)
+
+    def cond(fam):
+        small, big = COND[fam][ctx.tier]
+        cases = ctx.gen("spectral/CondensedSpectral.tla", "spectral/CondensedSpectral.cfg", name="R2 gen condensed %s" % fam,
+                        subst=dict(FAM=fam, SMALL=small, BIG="{" + ", ".join(map(str, big)) + "}", SEED=ctx.seed))
+        for bn, _ in builds:
+            ctx.replay(bins[bn], "spectral", cases, [], name="R2 replay %s [%s]" % (fam, bn))
+    # R1 and R2 stages are independent: one pool, the long generators first
+    ctx.parallel([(lambda fam=fam: one(fam)) for fam in ("gev", "svd", "sym")] + r1
+                 + [(lambda fam=fam: cond(fam)) for fam in COND], width=6)
 
     ctx.assumptions += [
         "TLC/SANY and the CommunityModules Json module are trusted",
